@@ -2,7 +2,7 @@
    ExtrOcamlBasic only: Z, positive, nat stay the extracted inductive types. *)
 Require Extraction.
 Require Import ExtrOcamlBasic.
-From CCTZ Require Import Base SrcConstants Cal CivilImpl FixedImpl PosixImpl PosixSpec ZoneLoad ZoneImpl ZoneSpec ZoneZ ZoneHist ZoneRefineDefs SplitJoin LoaderSM NameRes FormatImpl ParseImpl FmtSpec.
+From CCTZ Require Import Base SrcConstants Cal CivilImpl FixedImpl PosixImpl PosixSpec ZoneLoad ZoneImpl ZoneSpec WholeDomain ZoneZ ZoneHist ZoneRefineDefs SplitJoin LoaderSM NameRes FormatImpl ParseImpl FmtSpec.
 Extraction Language OCaml.
 Extraction "model.ml"
   Z.add Z.mul Z.sub Z.opp Z.div_eucl Z.compare Z.of_nat Z.to_nat
@@ -15,6 +15,7 @@ Extraction "model.ml"
   ParsePosixSpec posix_spec nul_free ptz_determined
   load_bytes load_name reset_to_builtin_utc break_time make_time convert_cs next_transition prev_transition
   fixed_abbr_spec min64 max64 big_bang parse_ast szone_of wf_ast spec_lookup spec_civil spec_convert all_changes spec_transition spec_next spec_prev
+  c01_domain whole_domain
   zone_ok abs_zone table_sorted zmake zbreak zconvert wfz
   split_seconds split_spec to_femto join_subsecond join_coarse join_seconds_rep rep_min rep_max
   exec ls_results ls_log ls_impls overlapping entries_for
